@@ -1,4 +1,6 @@
 From Coq Require Import Extraction ExtrOcamlBasic.
-From SV Require Import Model.PostOffice.
+From SV Require Import Model.PostOffice Model.Mailbox Model.MailboxFail Model.C06Run Model.C06Nets Model.C06Dag.
 Extraction Language OCaml.
-Extraction "model.ml" run_po whole comb_std.
+Extraction "model.ml" run_po whole comb_std
+  nstep nrun ntrace ninit nenabled all_terminal mk_mbox mk_thread main_outcome nobs outcome_code
+  chain_net chain_init chain_main fan_net fan_init fan_main cover_b init_ok_b dag_ok_b fault_ok_b.
